@@ -1,7 +1,9 @@
 package c10
 
 import (
+	"bytes"
 	"fmt"
+	"sort"
 	"testing"
 	"time"
 
@@ -98,6 +100,9 @@ func checkRegistryAfterBlock(t *rapid.T, h *sim.History, blk *types.Block) (sawP
 			if d := sim.CompareVC(r.AppState.ValidatorsCache, fresh, addrs, w.Name, seeds()); len(d) > 0 {
 				t.Fatalf("after %s the incremental validator view differs from a rebuilt one (incremental vs rebuilt): %v\nhistory:\n%s", sim.BlockDesc(blk), d, h.Summary())
 			}
+			if d := comparePoolOrder(r.AppState.ValidatorsCache, fresh, addrs, w.Name); len(d) > 0 {
+				t.Fatalf("after %s the member order of a pool in the incremental validator view differs from a rebuilt one (incremental vs rebuilt): %v\nhistory:\n%s", sim.BlockDesc(blk), d, h.Summary())
+			}
 			// ledger agreement
 			vc := fresh
 			for _, a := range w.Actors {
@@ -136,6 +141,9 @@ func checkRegistryAfterBlock(t *rapid.T, h *sim.History, blk *types.Block) (sawP
 			}
 			if blk.Header.Flags().HasFlag(types.IdentityUpdate) {
 				evid.Count("block.identity_update")
+				if prev, err := r.AppState.Readonly(blk.Height() - 1); err == nil {
+					countDepartures(prev.ValidatorsCache, vc, addrs, "pool.")
+				}
 				if diff := r.Chain.GetIdentityDiff(blk.Height()); diff != nil && len(diff.Values) >= 2 {
 					pools := 0
 					for _, v := range diff.Values {
@@ -183,6 +191,75 @@ func checkRegistryAfterBlock(t *rapid.T, h *sim.History, blk *types.Block) (sawP
 	return sawPoolDiff
 }
 
+// comparePoolOrder compares everything that depends on the ORDER of a pool's member list (sim.CompareVC samples the
+// first four positions only): FindSubIdentity at every position of the pool and one past it, and the rotation the reward
+// step performs (the returned nonce fed back in) twice around the pool.
+func comparePoolOrder(a, b *validators.ValidatorsCache, addrs []common.Address, name func(common.Address) string) []string {
+	var out []string
+	for _, x := range addrs {
+		if !a.IsPool(x) || !b.IsPool(x) {
+			continue
+		}
+		n := a.PoolSize(x)
+		if m := b.PoolSize(x); m > n {
+			n = m
+		}
+		for i := uint32(0); i <= uint32(n)+1; i++ {
+			s1, n1 := a.FindSubIdentity(x, i)
+			s2, n2 := b.FindSubIdentity(x, i)
+			if s1 != s2 || n1 != n2 {
+				out = append(out, fmt.Sprintf("FindSubIdentity(%s,%d) %s,%d vs %s,%d", name(x), i, name(s1), n1, name(s2), n2))
+			}
+		}
+		na, nb := uint32(0), uint32(0)
+		for i := 0; i < 2*n+2; i++ {
+			var s1, s2 common.Address
+			s1, na = a.FindSubIdentity(x, na)
+			s2, nb = b.FindSubIdentity(x, nb)
+			if s1 != s2 || na != nb {
+				out = append(out, fmt.Sprintf("rotation through %s, round %d: %s,%d vs %s,%d", name(x), i, name(s1), na, name(s2), nb))
+				break
+			}
+		}
+	}
+	return out
+}
+
+// countDepartures counts, between two views, delegators that left their pool, by the position they held in the pool's
+// address-ordered member list (a departure from the middle of a list is where list maintenance can go wrong).
+func countDepartures(before, after *validators.ValidatorsCache, addrs []common.Address, prefix string) (nonLastOfBig bool) {
+	members := map[common.Address][]common.Address{}
+	for _, d := range addrs {
+		if p := before.Delegator(d); p != (common.Address{}) {
+			members[p] = append(members[p], d)
+		}
+	}
+	for _, d := range addrs {
+		p := before.Delegator(d)
+		if p == (common.Address{}) || after.Delegator(d) == p {
+			continue
+		}
+		evid.Count(prefix + "delegator_left")
+		last := true
+		for _, m := range members[p] {
+			if string(m[:]) > string(d[:]) {
+				last = false
+			}
+		}
+		if len(members[p]) >= 3 {
+			evid.Count(prefix + "delegator_left_pool_of_3_or_more")
+			if !last {
+				evid.Count(prefix + "delegator_left_pool_of_3_or_more_not_from_the_end")
+				nonLastOfBig = true
+				if after.IsPool(p) {
+					evid.Count(prefix + "delegator_left_pool_of_3_or_more_not_from_the_end_pool_remains")
+				}
+			}
+		}
+	}
+	return nonLastOfBig
+}
+
 // Chain-free variant: batches of registry changes (shapes the chain produces:
 // a delegatee is never itself a delegator) applied incrementally vs. a full load.
 func TestRegistryIncrementalVsLoad(t *testing.T) {
@@ -213,7 +290,7 @@ func TestRegistryIncrementalVsLoad(t *testing.T) {
 		inc.Load()
 		name := func(a common.Address) string { return fmt.Sprintf("%x..%x", a[0], a[19]) }
 		batches := rapid.IntRange(1, 8).Draw(t, "batches")
-		sawPoolOrder, sawMulti := false, false
+		sawPoolOrder, sawMulti, sawInnerDeparture := false, false, false
 		var trace []string
 		// model of the stored registry, used only to keep generated shapes reachable:
 		// an identity goes online only while validated (or owning a non-empty pool) and not delegated;
@@ -243,7 +320,87 @@ func TestRegistryIncrementalVsLoad(t *testing.T) {
 						isOwner = true
 					}
 				}
-				switch rapid.IntRange(0, 6).Draw(t, "op") {
+				undelegate := func(a common.Address) {
+					d := mDelegatee[a]
+					ids.RemoveDelegatee(a)
+					mDelegatee[a] = nil
+					// the chain switches a pool that lost its last member (and is not validated itself) offline
+					if poolMembers(*d) == 0 && !mValidated[*d] {
+						ids.SetOnline(*d, false)
+						mOnline[*d] = false
+					}
+					trace = append(trace, fmt.Sprintf("undelegate(%s)", name(a)))
+				}
+				remove := func(a common.Address) {
+					d := mDelegatee[a]
+					ids.Remove(a)
+					mValidated[a], mOnline[a], mDelegatee[a] = false, false, nil
+					if d != nil && poolMembers(*d) == 0 && !mValidated[*d] {
+						ids.SetOnline(*d, false)
+						mOnline[*d] = false
+					}
+					// (a removed (killed) pool owner keeps its pool; it may stay online as a pool)
+					trace = append(trace, fmt.Sprintf("remove(%s)", name(a)))
+				}
+				switch rapid.IntRange(0, 8).Draw(t, "op") {
+				case 7:
+					// several members join one pool in the same batch: pools of three and more members
+					if len(poolOwners) == 0 {
+						continue
+					}
+					p := poolOwners[rapid.IntRange(0, len(poolOwners)-1).Draw(t, "pool")]
+					k := rapid.IntRange(2, 5).Draw(t, "joiners")
+					for _, m := range members {
+						if k == 0 {
+							break
+						}
+						if mDelegatee[m] != nil || !rapid.Bool().Draw(t, "joins") {
+							continue
+						}
+						ids.SetValidated(m, true)
+						mValidated[m] = true
+						ids.SetDelegatee(m, p)
+						ids.SetOnline(m, false)
+						mOnline[m] = false
+						pp := p
+						mDelegatee[m] = &pp
+						trace = append(trace, fmt.Sprintf("join(%s->%s)", name(m), name(p)))
+						k--
+					}
+				case 8:
+					// a member leaves its pool - chosen by its position in the pool's address order - by undelegating,
+					// by being removed, or by losing its validation
+					if len(poolOwners) == 0 {
+						continue
+					}
+					p := poolOwners[rapid.IntRange(0, len(poolOwners)-1).Draw(t, "pool")]
+					var ms []common.Address
+					for _, m := range addrs {
+						if d := mDelegatee[m]; d != nil && *d == p {
+							ms = append(ms, m)
+						}
+					}
+					if len(ms) == 0 {
+						continue
+					}
+					sort.Slice(ms, func(i, j int) bool { return bytes.Compare(ms[i][:], ms[j][:]) < 0 })
+					m := ms[0]
+					switch rapid.SampledFrom([]string{"first", "inner", "last"}).Draw(t, "position") {
+					case "inner":
+						m = ms[rapid.IntRange(0, len(ms)-1).Draw(t, "memberIdx")]
+					case "last":
+						m = ms[len(ms)-1]
+					}
+					switch rapid.SampledFrom([]string{"undelegate", "remove", "invalidate"}).Draw(t, "leavesBy") {
+					case "undelegate":
+						undelegate(m)
+					case "remove":
+						remove(m)
+					default:
+						ids.SetValidated(m, false)
+						mValidated[m] = false
+						trace = append(trace, fmt.Sprintf("validated(%s,false)", name(m)))
+					}
 				case 0:
 					v := rapid.Bool().Draw(t, "v")
 					ids.SetValidated(a, v)
@@ -279,28 +436,11 @@ func TestRegistryIncrementalVsLoad(t *testing.T) {
 						trace = append(trace, fmt.Sprintf("delegate(%s->%s)", name(a), name(p)))
 					}
 				case 5:
-					if d := mDelegatee[a]; d != nil {
-						ids.RemoveDelegatee(a)
-						mDelegatee[a] = nil
-						// the chain switches a pool that lost its last member (and is not validated itself) offline
-						if poolMembers(*d) == 0 && !mValidated[*d] {
-							ids.SetOnline(*d, false)
-							mOnline[*d] = false
-						}
-						trace = append(trace, fmt.Sprintf("undelegate(%s)", name(a)))
+					if mDelegatee[a] != nil {
+						undelegate(a)
 					}
 				case 6:
-					d := mDelegatee[a]
-					ids.Remove(a)
-					mValidated[a], mOnline[a], mDelegatee[a] = false, false, nil
-					if d != nil && poolMembers(*d) == 0 && !mValidated[*d] {
-						ids.SetOnline(*d, false)
-						mOnline[*d] = false
-					}
-					if poolMembers(a) > 0 {
-						// a removed (killed) pool owner keeps its pool; it may stay online as a pool
-					}
-					trace = append(trace, fmt.Sprintf("remove(%s)", name(a)))
+					remove(a)
 				}
 			}
 			// entries that are neither validated nor online are deleted by the commit, with their delegatee
@@ -330,12 +470,22 @@ func TestRegistryIncrementalVsLoad(t *testing.T) {
 					}
 				}
 			}
+			before := inc.Clone()
 			inc.UpdateFromIdentityStateDiff(diff)
 			fresh := validators.NewValidatorsCache(ids, god)
 			fresh.Load()
 			if d := sim.CompareVC(inc, fresh, addrs, name, seeds()); len(d) > 0 {
 				t.Fatalf("incremental view differs from loaded view after batch %d: %v\ntrace: %v", b, d, trace)
 			}
+			if d := comparePoolOrder(inc, fresh, addrs, name); len(d) > 0 {
+				t.Fatalf("member order of a pool in the incremental view differs from the loaded view after batch %d: %v\ntrace: %v", b, d, trace)
+			}
+			if countDepartures(before, fresh, addrs, "diffseq.") {
+				sawInnerDeparture = true
+			}
+		}
+		if sawInnerDeparture {
+			evid.Count("diffseq.with_departure_from_inside_a_pool_of_3_or_more")
 		}
 		if sawMulti && sawPoolOrder {
 			evid.Count("diffseq.multi_with_pool_owner")
@@ -406,6 +556,9 @@ func TestFastSyncedNodeView(t *testing.T) {
 		if d := sim.CompareVC(dst.AppState.ValidatorsCache, srcAt.ValidatorsCache, addrs, w.Name, seeds()); len(d) > 0 {
 			t.Fatalf("validator view of the fast-synced node differs from the node that executed every block: %v\nhistory:\n%s", d, h.Summary())
 		}
+		if d := append(comparePoolOrder(dst.AppState.ValidatorsCache, fresh, addrs, w.Name), comparePoolOrder(dst.AppState.ValidatorsCache, srcAt.ValidatorsCache, addrs, w.Name)...); len(d) > 0 {
+			t.Fatalf("member order of a pool in the validator view of the fast-synced node differs from a rebuilt one / from the node that executed every block: %v\nhistory:\n%s", d, h.Summary())
+		}
 		// the view fast sync itself maintained from the diffs (used for certificate checks while syncing). The god
 		// address is not part of the identity state, so committees in god-only mode are not compared for it.
 		fsSeeds := seeds()
@@ -414,6 +567,9 @@ func TestFastSyncedNodeView(t *testing.T) {
 		}
 		if d := sim.CompareVC(fsView, srcAt.ValidatorsCache, addrs, w.Name, fsSeeds); len(d) > 0 {
 			t.Fatalf("validator view maintained from the identity diffs during fast sync differs from the node that executed every block: %v\nhistory:\n%s", d, h.Summary())
+		}
+		if d := comparePoolOrder(fsView, srcAt.ValidatorsCache, addrs, w.Name); len(d) > 0 {
+			t.Fatalf("member order of a pool in the validator view maintained from the identity diffs during fast sync differs from the node that executed every block: %v\nhistory:\n%s", d, h.Summary())
 		}
 		// and it follows the chain from there
 		for x := target + 1; x <= src.Head().Height(); x++ {
